@@ -432,7 +432,7 @@ def check(composites, text, opts):
     except Walker.Desync:
         return rep
     rep.stats["tokens"] = len(w.toks)
-    layout(w, text, opts, rep)
+    layout(w, text, opts, rep, roots)
     return rep
 
 
@@ -440,11 +440,27 @@ def check(composites, text, opts):
 # C16: layout
 
 
-def layout(w, text, opts, rep):
+def _line_breaks_in_values(d):
+    """Number of LF characters in the string keys / values of a dictionary (kept comments are not values)."""
+    if isinstance(d, dict):
+        return sum((k.count("\n") if isinstance(k, str) else 0) + _line_breaks_in_values(v) for k, v in d.items() if not is_hidden(k))
+    if isinstance(d, (list, tuple)):
+        return sum(_line_breaks_in_values(v) for v in d)
+    return d.count("\n") if isinstance(d, str) else 0
+
+
+def layout(w, text, opts, rep, roots=None):
     nl = opts["newlinechar"]
     if "\n" not in nl:
         rep.stats["layout_skipped_no_linebreak"] += 1
         return
+    if roots is not None:
+        # 0. a keyword line is ONE line unless its value itself holds a line break: the value tokens of the text span exactly as many
+        #    line breaks as the dictionary's strings contain
+        in_text = sum(t.text.count("\n") for t in w.toks if t.kind in ("dq", "sq", "expr", "list", "bq", "regex"))
+        in_dict = _line_breaks_in_values(roots)
+        if in_text != in_dict:
+            rep.l("keyword-line-broken-inside-its-value", f"value tokens of the text span {in_text} line break(s), the dictionary's strings hold {in_dict}")
     unit = opts["unit"] if opts.get("unit") is not None else opts["spacer"] * opts["indent"]
     # 1. every line break is newlinechar (outside string tokens)
     masked = list(text)
